@@ -2,7 +2,10 @@ module verifharness
 
 go 1.22.12
 
-require github.com/anthdm/hollywood v0.0.0
+require (
+	github.com/anthdm/hollywood v0.0.0
+	google.golang.org/protobuf v1.32.0
+)
 
 require (
 	github.com/DataDog/gostackparse v0.7.0 // indirect
@@ -31,7 +34,6 @@ require (
 	golang.org/x/text v0.21.0 // indirect
 	google.golang.org/genproto/googleapis/rpc v0.0.0-20231002182017-d307bd883b97 // indirect
 	google.golang.org/grpc v1.60.1 // indirect
-	google.golang.org/protobuf v1.32.0 // indirect
 	storj.io/drpc v0.0.33 // indirect
 )
 
